@@ -72,16 +72,22 @@ where
 /// Own object-safe task type, so that pool tasks do not take part in the drop-glue
 /// recursion of `Box<dyn FnOnce()>`.
 trait ShimTask {
-    /// `allow_loop == false` is passed (as a literal) by every caller that may be nested
-    /// inside the store's reducer loop; the loop closure's instance then has a
-    /// constant-false guard and is not entered again.
-    fn run_box(self: Box<Self>, allow_loop: bool);
+    /// run from the top level of a harness (the reducer loop may be started here)
+    fn run_box_top(self: Box<Self>);
+    /// run from a context that may be nested inside the store's reducer loop: the loop
+    /// closure's instance refuses (a compile-time constant guard, so the symbolic executor
+    /// never re-enters the loop through this call)
+    fn run_box_nested(self: Box<Self>);
 }
 struct Holder<T>(T);
 impl<T: Task<()> + 'static> ShimTask for Holder<T> {
-    fn run_box(self: Box<Self>, allow_loop: bool) {
+    fn run_box_top(self: Box<Self>) {
+        (*self).0.run()
+    }
+    fn run_box_nested(self: Box<Self>) {
         // the store's reducer loop is the closure defined in `StoreImpl::new_with`
-        if <T as IsLoop>::IS_LOOP && !allow_loop {
+        if <T as IsLoop>::IS_LOOP {
+            core::mem::forget(self);
             panic!("VERIF-MODEL: reducer loop task scheduled from a nested context");
         } else {
             (*self).0.run()
@@ -206,7 +212,13 @@ pub mod ghost {
             TASKS[k].state = ST_RUNNING;
             let t = SLOTS[k].task.take();
             match t {
-                Some(b) => b.run_box(allow_loop),
+                Some(b) => {
+                    if allow_loop {
+                        b.run_box_top()
+                    } else {
+                        b.run_box_nested()
+                    }
+                }
                 None => panic!("VERIF-MODEL: empty task slot"),
             }
             TASKS[k].state = ST_DONE;
